@@ -894,8 +894,8 @@ func (g *Gen) History() []Entry {
 // from a PRNG of their own, so everything before them is unchanged.
 func (g *Gen) tail() {
 	g.R = rand.New(rand.NewSource(g.seed*7919 + 104729))
-	order := g.R.Perm(5)
-	n := 2 + g.R.Intn(2)
+	order := g.R.Perm(7)
+	n := 2 + g.R.Intn(3)
 	if len(g.P.TailForce) > 0 {
 		order, n = g.P.TailForce, len(g.P.TailForce)
 	}
@@ -1018,6 +1018,59 @@ func (g *Gen) tailScenario(sc int) {
 				g.track(s)
 			}
 		}
+	case 5: // the channel limit is reached: JOIN, services JOIN and SVSJOIN of a new channel
+		if g.P.NoConfig {
+			return
+		}
+		g.rev++
+		g.hasCfg = true
+		g.captcha = false
+		g.emit(Entry{Type: int64(robust.Config), Data: fmt.Sprintf("SessionExpiration = \"30m0s\"\nPostMessageCooloff = \"0\"\nMaxChannels = 1\n[IRC]\n  [[IRC.Operators]]\n    Name = %q\n    Password = %q\n  [[IRC.Services]]\n    Password = %q\n", OperName, OperPass, SvcPass), Revision: g.rev, Cmd: "CONFIG"})
+		rs := g.regs()
+		if len(rs) == 0 {
+			return
+		}
+		a := rs[g.R.Intn(len(rs))]
+		g.line(a, "JOIN #lim1")
+		if g.P.Services {
+			for _, s := range g.live() {
+				if s.link && len(s.pseudo) > 0 && !strings.ContainsAny(s.pseudo[0], " :") && s.pseudo[0] != "" {
+					g.line(s, assemble(s.pseudo[0], "SVSJOIN", []string{a.nick, "#lim2"}, false, ""))
+					g.line(s, assemble(s.pseudo[0], "JOIN", []string{"#lim3"}, false, ""))
+					break
+				}
+			}
+		}
+		g.line(rs[g.R.Intn(len(rs))], "JOIN #lim4,#lim5")
+		g.line(a, "PRIVMSG #lim2 :am i in")
+		g.config()
+	case 6: // a channel that is invite-only AND captcha-protected: a captcha does not replace the invitation
+		if g.P.NoConfig {
+			return
+		}
+		rs := g.regs()
+		if len(rs) < 2 {
+			return
+		}
+		if !g.captcha {
+			g.rev++
+			g.hasCfg = true
+			g.emit(Entry{Type: int64(robust.Config), Data: fmt.Sprintf("SessionExpiration = \"30m0s\"\nPostMessageCooloff = \"0\"\nCaptchaURL = \"http://captcha.example/\"\nCaptchaHMACSecret = %q\n[IRC]\n  [[IRC.Operators]]\n    Name = %q\n    Password = %q\n  [[IRC.Services]]\n    Password = %q\n", CaptchaKey, OperName, OperPass, SvcPass), Revision: g.rev, Cmd: "CONFIG"})
+			g.captcha = true
+		}
+		a, b := rs[0], rs[len(rs)-1]
+		ch := g.pick([]string{"#ix", "#IX2"})
+		g.line(a, "JOIN "+ch)
+		g.line(a, "MODE "+ch+" "+g.pick([]string{"+ix", "+xi", "+i"}))
+		if g.R.Intn(3) == 0 {
+			g.line(a, "MODE "+ch+" +x")
+		}
+		key, _ := hex.DecodeString(CaptchaKey)
+		valid := Captcha(key, fmt.Sprintf("okay:join:%d:%s", g.now, ch), "chal")
+		g.line(b, "JOIN "+ch+" "+valid)
+		g.line(b, "PRIVMSG "+ch+" :did the captcha open the door")
+		g.line(a, "INVITE "+b.nick+" "+ch)
+		g.line(b, "JOIN "+ch+" "+g.captchaToken(ch))
 	case 4: // SVSPART, then the parted user is looked up, renames and leaves
 		if !g.P.Services || !g.hasCfg {
 			return
